@@ -14,7 +14,7 @@ CHECKS = {
 }
 CHECKS["C03"] = ("property-based testing (proptest): generated configurations, invariant over the returned Solution and the call log of an instrumented IVP",
          "Generated search over problems x spans (1e-11..1e6, both directions, infinite with terminal event) x six methods x first_step/max_step/t_eval/dense/events/max_steps combinations; every ode/events/jac call time is recorded by an instrumented IVP and the status<->coverage equivalences are evaluated on each run.",
-         "Time slack 4 ulp; 'xend to rounding' = 1e-12 + 32 ulp; panics/hangs are owned by C04.", "DESIGN.md §4 C03")
+         "Time slack 4 ulp; 'xend to rounding' = 32 ulp; 8% of the cases with a right-hand side turning non-finite; panics/hangs are owned by C04.", "DESIGN.md §4 C03")
 CHECKS["C12"] = ("metamorphic property-based testing (proptest): plain run vs the 7 option subsets and a repeat; bit-identity of samples, statistics and a hash of every right-hand-side argument",
          "Each generated case is solved under all subsets of {t_eval, dense_output, non-terminal events}; the instrumented IVP hashes the bits of every (t,y) passed to the right-hand side, so 'the stepper did not notice the observer' is decided exactly.",
          "Bit-identity; dense span end compared to 1e-12 + 4 ulp.", "DESIGN.md §4 C12")
@@ -32,7 +32,7 @@ CHECKS["C06"] = ("property-based testing (proptest): dense output vs the accepte
          "Tolerances 1e-10(1+|y|) + 8 max|f| ulp(t); 'clearly outside' = 1e-9(1+|t|).", "DESIGN.md §4 C06")
 CHECKS["C08"] = ("two-phase property-based testing (proptest): event roots placed relative to the plain run's step grid; validity predicate over every reported event",
          "Roots of 1..4 generated event functions are placed mid-step, 1e-13..1e-9 beside a step end, or several in one step; each reported event is checked for bracket membership, agreement with the dense solution, |g| against a Lipschitz-scaled root-finder bound, direction in integration order, ordering and shapes.",
-         "Sampled Lipschitz constant (64 sub-intervals, x2); absolute 2e-12 for the end-point shortcut.", "DESIGN.md §4 C08")
+         "Sampled Lipschitz constant (64 sub-intervals, x2); event functions with exact power-of-two factors 2^-1000..2^900, strictly positive ones, picosecond spans, zero-length run.", "DESIGN.md §4 C08")
 CHECKS["C09"] = ("two-phase property-based testing (proptest): sign pattern of g at the accepted steps vs reported events (exactly-one / none matching)",
          "Same two-phase placement; for every function and step the strict sign pattern at the step ends decides whether exactly one, none or any event may be attributed to the step; single-root time events must be found exactly once and located to 4e-12.",
          "Exact zeros at step ends are skipped (SciPy semantics, as the property allows).", "DESIGN.md §4 C09")
@@ -43,14 +43,14 @@ CHECKS["C10"] = ("two-phase differential property-based testing (proptest): the 
          "Event roots placed relative to the step grid (several functions in one step, either order), occurrence counts 1..3, with/without t_eval and dense output; the twin run without terminal flags defines where the run must stop and what must have been reported before.",
          "Ties of two terminal functions at the same instant skipped.", "DESIGN.md §4 C10")
 CHECKS["C04"] = ("property-based testing with fault injection (proptest): pathological right-hand sides and injected NaN/inf under a deterministic evaluation budget",
-         "Generated blow-up / stiff / discontinuous problems and benign problems whose right-hand side turns non-finite at a generated time, through an instrumented IVP that aborts the run after 2e6 evaluations: termination is decided by a deterministic work count, panics are caught, Success with non-finite states is rejected.",
+         "Generated blow-up / stiff / discontinuous problems and benign problems whose right-hand side turns non-finite at a generated time, through an instrumented IVP that aborts the run after 2e6 evaluations: termination is decided by a deterministic work count, panics are caught, Success with non-finite states is rejected; 'resonant' cases make the iteration matrix of Radau/BDF exactly singular at the first attempt and compare with a twin run. One genuine, unrepaired finding (K3: creep at the boundary of a state-dependent non-finite region) is keyed by a narrow diagnosis and excluded.",
          "Budget 2e6 evaluations vs <=1.2e5 observed; RK4 only required to terminate.", "DESIGN.md §4 C04")
 CHECKS["C13"] = ("metamorphic property-based testing (proptest): time reflection, power-of-two scaling, scalar-vs-vector tolerance, independent copies; bit-identity where the symmetry is exact in floating point",
          "Each generated problem is solved together with its transformed twin; the relations are exact in IEEE arithmetic (negation, multiplication by 2^k, duplication), so for explicit methods and user-Jacobian implicit ones any difference in a single bit is a counterexample.",
          "R4 only with first_step given; Radau/BDF under R4 and FD-Jacobian scaling only to tolerance (documented in DESIGN).", "DESIGN.md §4 C13")
 CHECKS["C01"] = ("property-based testing (proptest) against closed-form exact solutions: tolerance ladders, per-component bounds, RK4 convergence order",
-         "Problems are constructed from exact solutions (stacked closed-form blocks, time-warp, linear mixing) with an a-priori amplification bound kappa; every returned sample of every rung of a tolerance ladder is compared with the exact solution against C*kappa*naccpt*tolscale; decoupled problems pin per-component tolerances; RK4 is checked for fourth-order convergence. One algorithm-inherent finding (K1, vanishing embedded error estimate) is keyed narrowly and excluded.",
-         "C = 50 (max observed ratio 19 over 3e5 cases, typical < 0.2); Radau's documented internal tolerance transformation is modelled in the absolute-dominated mode.", "DESIGN.md §4 C01")
+         "Problems are constructed from exact solutions (stacked closed-form blocks, time-warp, linear mixing) with an a-priori amplification bound kappa; every returned sample of every rung of a tolerance ladder is compared with the exact solution against C*kappa*naccpt*tolscale; decoupled problems pin per-component tolerances; RK4 is checked for fourth-order convergence; a third of the problems are posed in units of 2^-40..2^40; 1/13 of the cases are random dissipative vector fields against the harness's own reference integrator. Three genuine, unrepaired findings (K1 vanishing embedded error estimate, K2 interpolation inside coarse steps, K4 finite-difference Jacobian of a small state) are keyed by narrow diagnoses and excluded.",
+         "C = 100 (ratio typically < 0.2, heavy tail: largest passing ratio 97 over 2e7 cases; the evidence reports the tail histogram and the case closest to the bound); Radau's documented internal tolerance transformation is modelled in the absolute-dominated mode.", "DESIGN.md §4 C01")
 CHECKS["C02"] = ("property-based testing (proptest) + exhaustive rooted-tree enumeration: Butcher weights extracted from the compiled steppers with a unit-vector right-hand side; local-error slopes; Pade approximant; polynomial quadrature; step-count scaling",
          "The stage weights the explicit steppers actually apply (one step, a clipped step, two consecutive steps, dense output on/off, generated x0 and h = +-2^k) are extracted exactly and checked against every rooted-tree order condition up to p (200 trees for DOP853); Radau is checked against the (2,3) Pade approximant over generated complex z; the embedded estimators through exact polynomial quadrature and tolerance scaling.",
          "Assumes the documented stage evaluation order; slope thresholds calibrated on the repaired tree.", "DESIGN.md §4 C02")
